@@ -2105,6 +2105,16 @@ func (d *Data) ReceiveBlocks(ctx *datastore.VersionedCtx, r io.ReadCloser, scale
 		putbuffer = req.NewBuffer(ctx)
 	}
 
+	if d.Compression().Format() != dvid.Gzip {
+		return fmt.Errorf("labelarray %q cannot accept GZIP /blocks POST since it internally uses %s", d.DataName(), d.Compression().Format())
+	}
+	var extentsChanged bool
+	extents, err := d.GetExtents(ctx)
+	if err != nil {
+		return err
+	}
+	// (from here on every way out releases the aggregating goroutine and the scale-update marks
+	// of the down-res mutation)
 	mutID := d.NewMutationID()
 	var downresMut *downres.Mutation
 	if downscale {
@@ -2142,22 +2152,19 @@ func (d *Data) ReceiveBlocks(ctx *datastore.VersionedCtx, r io.ReadCloser, scale
 		wg.Done()
 	}
 
-	if d.Compression().Format() != dvid.Gzip {
-		return fmt.Errorf("labelarray %q cannot accept GZIP /blocks POST since it internally uses %s", d.DataName(), d.Compression().Format())
-	}
-	var extentsChanged bool
-	extents, err := d.GetExtents(ctx)
-	if err != nil {
-		return err
-	}
+	// A stream that turns out to be bad after some blocks have been stored is refused, but the
+	// bookkeeping for the blocks stored so far is still completed.
 	var numBlocks, pos int
+	var streamErr error
+	blockSize := d.BlockSize().(dvid.Point3d)
 	hdrBytes := make([]byte, 16)
-	for {
+	for streamErr == nil {
 		n, readErr := io.ReadFull(r, hdrBytes)
 		if n != 0 {
 			pos += n
 			if n != 16 {
-				return fmt.Errorf("error reading header bytes at byte %d: %v", pos, err)
+				streamErr = fmt.Errorf("error reading header bytes at byte %d: %v", pos, err)
+				break
 			}
 			bx := int32(binary.LittleEndian.Uint32(hdrBytes[0:4]))
 			by := int32(binary.LittleEndian.Uint32(hdrBytes[4:8]))
@@ -2172,55 +2179,61 @@ func (d *Data) ReceiveBlocks(ctx *datastore.VersionedCtx, r io.ReadCloser, scale
 			nread, readErr = io.CopyN(&buf, r, int64(numBytes))
 			n = int(nread)
 			if n != numBytes || (readErr != nil && readErr != io.EOF) {
-				return fmt.Errorf("error reading %d bytes for block %s: %d read (%v)", numBytes, bcoord, n, readErr)
+				streamErr = fmt.Errorf("error reading %d bytes for block %s: %d read (%v)", numBytes, bcoord, n, readErr)
+				break
 			}
 			compressed := buf.Bytes()
 
-			if scale == 0 {
-				if mod := d.blockChangesExtents(&extents, bx, by, bz); mod {
-					extentsChanged = true
-				}
-			}
-
 			serialization, err := dvid.SerializePrecompressedData(compressed, d.Compression(), d.Checksum())
 			if err != nil {
-				return fmt.Errorf("can't serialize received block %s data: %v", bcoord, err)
+				streamErr = fmt.Errorf("can't serialize received block %s data: %v", bcoord, err)
+				break
 			}
 			pos += n
 
 			gzipIn := bytes.NewBuffer(compressed)
 			zr, err := gzip.NewReader(gzipIn)
 			if err != nil {
-				return fmt.Errorf("can't initiate gzip reader: %v", err)
+				streamErr = fmt.Errorf("can't initiate gzip reader: %v", err)
+				break
 			}
 			uncompressed, err := ioutil.ReadAll(zr)
 			if err != nil {
-				return fmt.Errorf("can't read all %d bytes from gzipped block %s: %v", numBytes, bcoord, err)
+				streamErr = fmt.Errorf("can't read all %d bytes from gzipped block %s: %v", numBytes, bcoord, err)
+				break
 			}
 			if err := zr.Close(); err != nil {
-				return fmt.Errorf("error on closing gzip on block read of data %q: %v", d.DataName(), err)
+				streamErr = fmt.Errorf("error on closing gzip on block read of data %q: %v", d.DataName(), err)
+				break
 			}
 
 			var block labels.Block
 			if err = block.UnmarshalBinary(uncompressed); err != nil {
-				return fmt.Errorf("unable to deserialize label block %s: %v", bcoord, err)
+				streamErr = fmt.Errorf("unable to deserialize label block %s: %v", bcoord, err)
+				break
+			}
+			if block.Size != blockSize {
+				streamErr = fmt.Errorf("block %s has size %s, not the block size %s of labelarray %q", bcoord, block.Size, blockSize, d.DataName())
+				break
 			}
 			if scale == 0 {
+				if mod := d.blockChangesExtents(&extents, bx, by, bz); mod {
+					extentsChanged = true
+				}
 				go d.updateBlockMaxLabel(ctx.VersionID(), &block)
 			}
 
-			if err != nil {
-				return fmt.Errorf("Unable to deserialize %d bytes corresponding to block %s: %v", n, bcoord, err)
-			}
-			wg.Add(1)
 			if putbuffer != nil {
+				wg.Add(1)
 				ready := make(chan error, 1)
 				go callback(bcoord, &block, ready)
 				putbuffer.PutCallback(ctx, tk, serialization, ready)
 			} else {
 				if err := store.Put(ctx, tk, serialization); err != nil {
-					return fmt.Errorf("Unable to PUT voxel data for block %s: %v", bcoord, err)
+					streamErr = fmt.Errorf("Unable to PUT voxel data for block %s: %v", bcoord, err)
+					break
 				}
+				wg.Add(1)
 				go callback(bcoord, &block, nil)
 			}
 			numBlocks++
@@ -2244,9 +2257,12 @@ func (d *Data) ReceiveBlocks(ctx *datastore.VersionedCtx, r io.ReadCloser, scale
 		putbuffer.Flush()
 	}
 	if downscale {
-		if err := downresMut.Execute(); err != nil {
-			return err
+		if err := downresMut.Execute(); err != nil && streamErr == nil {
+			streamErr = err
 		}
+	}
+	if streamErr != nil {
+		return streamErr
 	}
 	timedLog.Infof("Received and stored %d blocks for labelarray %q", numBlocks, d.DataName())
 	return nil
